@@ -114,14 +114,21 @@ impl<F: Read + Seek> BufRead for Stream<F> {
             let stream_id = self.stream_id;
             let offset = self.buf_offset_from_start;
             let minialloc = self.minialloc()?;
-            self.buffer.refill_with(remaining, |buf| {
+            let result = self.buffer.refill_with(remaining, |buf| {
                 read_data_from_stream(
                     &mut minialloc.write().unwrap(),
                     stream_id,
                     offset,
                     buf,
                 )
-            })?;
+            });
+            if result.is_err() {
+                // A failed refill leaves the buffer's old fill count in place,
+                // but the buffer now stands for the new offset; don't let a
+                // later read serve those stale bytes.
+                self.buffer.clear();
+            }
+            result?;
         }
         Ok(self.buffer.remaining_slice())
     }
